@@ -17,6 +17,12 @@ VERUS = {
 
 _LOW3 = '3 words: low and middle word fully symbolic (2^128, shared by the sweep) x concrete top word '
 _TH = {'tier': 'thorough'}
+_D15 = 'den = any of 1..=15'
+_RATIO_NOTE = ('Repr::to_f32/to_f64 harnesses: dashu-int operations stubbed by their inline-operand arm (UBig::div_rem(&UBig), '
+               'UBig << usize, &UBig << usize, &IBig << usize; heap arms = panic): trusted to equal the real arms. Known-finding '
+               'region (double rounding: x / 2^shift is not an integer and its nearest-even integer times 2^shift is a midpoint of '
+               'two neighbouring floats) assumed away in the main harnesses, see vk_rf_tie_region. Out of reach (operands > 128 '
+               'bits): subnormal results, f64 overflow, the f64 underflow cut-off `shift < -1074 - 53` (3 / 2^1076 -> 0.0).')
 
 KANI = {
     # bounded companion of the Verus unit int_to_float on the real code: UBig/IBig::to_f32/to_f64 for heap integers.
@@ -45,11 +51,45 @@ KANI = {
             'vk_int_to_float_k_ref_w17_inf': {'kind': 'bounded', 'bound': '17 words via TypedReprRef::RefLarge: 16 lower words fully symbolic x top word in {1, 2^63, u64::MAX}; to_f64 and to_f32'},
         },
     },
+    # bounded companion of the Verus unit ratio_to_float on the real rational/src/convert.rs (Repr::to_f32/to_f64,
+    # TryFrom<Repr> for UBig/IBig, TryFrom<RBig> for f32/f64).  The double-rounding region (see _RATIO_NOTE) is assumed
+    # away in the to_f32/to_f64 harnesses.  The harness file also contains four harnesses of kind 'finding' that FAIL on
+    # the unchanged tree (they witness genuine defects); they are listed in _RATIO_FINDINGS and must be moved into
+    # 'harnesses' together with `known:` entries in known_findings.txt (or dropped once /repo is fixed).
+    'ratio_to_float_k': {
+        'package': 'dashu-ratio', 'target': 'rational/src/convert.rs', 'file': 'ratio_to_float_k.rs',
+        'note': _RATIO_NOTE,
+        'harnesses': {
+            'vk_ratio_to_float_k_f32_critical': {'kind': 'bounded', 'bound': _D15 + ', num = 2^t + hi*2^(t-3) + lo, t = bitlen(den)+23+(0|1), hi < 8, lo < 32'},
+            'vk_ratio_to_float_k_f32_small_num': dict(_TH, kind='bounded', bound=_D15 + ', num = any of -255..=255'),
+            'vk_ratio_to_float_k_f32_big_num': dict(_TH, kind='bounded', bound=_D15 + ', num = 2^62 + a*2^59 + b*2^37 + c, a, b, c < 8'),
+            'vk_ratio_to_float_k_f32_overflow': {'kind': 'bounded', 'bound': 'den = 1, num = +-(((2^25-1-a) * 64 + lo) * 2^97), a < 4, lo < 64'},
+            'vk_ratio_to_float_k_f64_critical': {'kind': 'bounded', 'bound': _D15 + ', num = 2^t + hi*2^(t-3) + lo, t = bitlen(den)+52+(0|1), hi < 8, lo < 32'},
+            'vk_ratio_to_float_k_f64_small_num': dict(_TH, kind='bounded', bound=_D15 + ', num = any of -255..=255'),
+            'vk_ratio_to_float_k_f64_big_num': dict(_TH, kind='bounded', bound=_D15 + ', num = 2^63 + a*2^60 + lo, a < 8, lo < 4096'),
+            'vk_ratio_to_float_k_to_ubig': {'kind': 'bounded', 'bound': '|num| < 2^15, den = any of 1..=15 (non-integer value if den > 1)'},
+            'vk_ratio_to_float_k_to_ibig': {'kind': 'bounded', 'bound': '|num| < 2^15, den = any of 1..=15 (non-integer value if den > 1)'},
+            'vk_ratio_to_float_k_try_f32': {'kind': 'bounded', 'bound': 'num = any i32, den = 2^k, k in {0, 1, 126, 149, 150, 181}'},
+            'vk_ratio_to_float_k_try_f64': {'kind': 'bounded', 'bound': 'num = any i64, den = 2^k, k in {0, 1, 64}'},
+        },
+    },
+}
+
+# NOT registered (they FAIL on the unchanged tree by design; need `known:` entries in known_findings.txt first):
+_RATIO_FINDINGS = {
+    'vk_ratio_to_float_k_finding_f32_double_rounding': {'kind': 'finding', 'bound': 'as f32_critical, inside the region',
+        'note': 'double rounding in Repr::to_f32: 117440522/7 = 16777217.43 -> Inexact(16777216.0, Negative), correct 16777218.0'},
+    'vk_ratio_to_float_k_finding_f64_double_rounding': {'kind': 'finding', 'bound': 'as f64_critical, inside the region',
+        'note': 'double rounding in Repr::to_f64: ((2^53+1)*7+3)/7 -> Inexact(2^53, Negative), correct 2^53+2'},
+    'vk_ratio_to_float_k_finding_try_f32_wide_num': {'kind': 'finding', 'bound': 'num = any i64 outside i32, den = 1',
+        'note': 'TryFrom<RBig> for f32 unwraps numerator -> i32: f32::try_from(RBig 2^31) panics'},
+    'vk_ratio_to_float_k_finding_try_f64_wide_num': {'kind': 'finding', 'bound': '2^63 <= |num| < 2^64, den = 1',
+        'note': 'TryFrom<RBig> for f64 unwraps numerator -> i64: f64::try_from(RBig 2^63) panics'},
 }
 
 PROP_UNITS = {
     'C06': {'verus': ['int_to_float', 'float_to_f', 'float_conv', 'ratio_to_float', 'float_from_prim'],
-            'kani': ['int_to_float_k']},
+            'kani': ['int_to_float_k', 'ratio_to_float_k']},
     'C08': {'verus': ['float_conv', 'float_from_prim']},
     'C10': {'verus': ['float_conv']},
 }
